@@ -1255,6 +1255,14 @@ class Converter:
         vars_def_in_loop = self.analyzer.assigned_vars(loop_stmt.body)
         live_out = self.analyzer.live_out(loop_stmt)
         assert live_out is not None, "live_out cannot be None here."
+        if isinstance(loop_stmt, ast.For) and python_loop_var_name in live_out:
+            # Python leaves the last index in the loop variable; the translation binds it only
+            # inside the loop body, so a later use would silently see the value from before the loop.
+            self._fail(
+                loop_stmt,
+                f"The loop variable {python_loop_var_name!r} is used after the loop; "
+                "this is not supported.",
+            )
         loop_state_vars = sorted(vars_def_in_loop.intersection(exposed_uses | live_out))
         scan_outputs = []  # TODO
         outputs = loop_state_vars + scan_outputs
